@@ -179,6 +179,8 @@ def _range_ok(field, s):
 
 def _numa(s):
     # documented domain: "-1 or 0-7"
+    if any(ord(c) > 127 for c in s):
+        return UNSPEC                 # int() reads non-ASCII decimal digits
     if s in ('-1', '0', '1', '2', '3', '4', '5', '6', '7'):
         return MEMBER
     body = s[1:] if s[:1] == '-' else s
@@ -460,7 +462,7 @@ def miss_class(fmt, s):
         return "non-string"
     if fmt == 'numa':
         return "int-lenient" if python_int_lenient(s) else "other"
-    if s.endswith('\n') and classify_str(fmt, s[:-1]) == MEMBER:
+    if s.endswith('\n') and classify_str(fmt, s[:-1]) != NON_MEMBER:
         return "trailing-newline"
     return "other"
 
@@ -515,27 +517,35 @@ def _txt(alphabet, lo, hi):
     return st.text(alphabet=alphabet, min_size=lo, max_size=hi)
 
 
-def _sized(alphabet, lo, hi):
+@st.composite
+def _cyc(draw, alphabet, length):
+    """a string of the given length over the alphabet; long ones repeat a short random unit (cheap to draw)"""
+    if length <= 0:
+        return ""
+    if length <= 12:
+        return draw(st.text(alphabet=alphabet, min_size=length, max_size=length))
+    unit = draw(st.text(alphabet=alphabet, min_size=1, max_size=8))
+    return (unit * (length // len(unit) + 1))[:length]
+
+
+@st.composite
+def _sized(draw, alphabet, lo, hi):
     """lengths at min, max and in between"""
-    return st.one_of(_txt(alphabet, lo, lo), _txt(alphabet, hi, hi), _txt(alphabet, lo, min(hi, lo + 12)),
-                     _txt(alphabet, lo, hi))
+    length = draw(st.one_of(st.sampled_from([lo, hi, lo + 1, hi - 1]), st.integers(lo, min(hi, lo + 12)),
+                            st.integers(lo, hi)))
+    return draw(_cyc(alphabet, length))
 
 
 _OCT = st.one_of(st.sampled_from([0, 9, 10, 99, 100, 199, 200, 249, 250, 255]), st.integers(0, 255))
 
 
 @st.composite
-def _octet_s(draw):
-    v = draw(_OCT)
-    s = str(v)
-    if draw(st.integers(0, 9)) == 0 and len(s) < 3:     # leading zeros are admitted by the pattern
-        s = s.rjust(draw(st.integers(len(s), 3)), '0')
-    return s
-
-
-@st.composite
 def _ipv4_s(draw):
-    return '.'.join(draw(_octet_s()) for _ in range(4))
+    octs = [str(v) for v in draw(st.lists(_OCT, min_size=4, max_size=4))]
+    z = draw(st.integers(0, 39))
+    if z < 4 and len(octs[z]) < 3:          # leading zeros are admitted by the pattern
+        octs[z] = octs[z].rjust(2 + z % 2, '0')
+    return '.'.join(octs)
 
 
 @st.composite
@@ -669,8 +679,8 @@ def _specific(fmt):
         alphabet, lo, hi = CLASS_FORMATS[fmt]
         bad = [c for c in [' ', '@', '!', '$', '#', ',', ';', '\\', '"', "'", '(', '*', '+', '/', ':', '.', '~', '=']
                if c not in alphabet]
-        return [("too-short", _txt(alphabet, lo - 1, lo - 1)), ("too-long", _txt(alphabet, hi + 1, hi + 1)),
-                ("too-long", _txt(alphabet, hi + 2, hi + 40)),
+        return [("too-short", _cyc(alphabet, lo - 1)), ("too-long", _cyc(alphabet, hi + 1)),
+                ("too-long", st.integers(hi + 2, hi + 40).flatmap(lambda n: _cyc(alphabet, n))),
                 ("forbidden-char", st.tuples(_txt(alphabet, lo, 20), S(bad), _N(0, 20)).map(
                     lambda t: t[0][:t[2] % (len(t[0]) + 1)] + t[1] + t[0][t[2] % (len(t[0]) + 1):]))]
     return []
@@ -680,9 +690,10 @@ NON_STRINGS = [None, 0, 3, -1, 1.5, True, False, {}, {"a": "1"}]
 
 
 @st.composite
-def candidate(draw, fmt, p_member=0.35):
-    """returns {"value":..., "nm": near-miss class or "member", "base": member at edit distance 1 or None}"""
-    r = draw(st.floats(0, 1))
+def candidate(draw, fmt, p_member=35):
+    """returns {"value":..., "nm": near-miss class or "member", "base": member at edit distance 1 or None};
+    p_member = percentage of plain members"""
+    r = draw(st.integers(0, 99))
     base = draw(member(fmt))
     if r < p_member:
         return {"value": base, "nm": "member", "base": None}
